@@ -481,7 +481,8 @@ def build_model(rng, C, models, uid):
     for i in range(npk):
         cols.append(ColSpec("k%d" % i, rng.choice(KEY_KINDS), "pk", None))
     for i in range(nck):
-        cols.append(ColSpec("c%d" % i, rng.choice(["int", "text", "datetime", "int"]), "ck", None))
+        cols.append(ColSpec("c%d" % i, rng.choice(["int", "text", "datetime", "int", "text", "bigint", "varint", "bool", "double", "decimal", "blob",
+                                                   "uuid", "date", "time", "inet"]), "ck", None))
     for c in cols:
         c.field = field_for(c.attr)
     for i in range(rng.randint(2, 7)):
@@ -512,8 +513,25 @@ def build_model(rng, C, models, uid):
     return sp
 
 
+FALSY = {"int": 0, "bigint": 0, "varint": 0, "text": "", "bool": False, "double": 0.0, "decimal": decimal.Decimal(0), "blob": b"",
+         "datetime": datetime.datetime(1970, 1, 1), "date": datetime.date(1970, 1, 1), "time": datetime.time(0, 0, 0), "uuid": uuid.UUID(int=0),
+         "inet": "0.0.0.0"}
+
+
 def gen_scalar(rng, kind):
+    """values of a column kind; about one in six is the kind's zero / empty / False (falsy but set) or another boundary"""
     r = rng.random()
+    if rng.random() < 0.17:
+        q = rng.random()
+        if q < 0.7 or kind not in ("int", "bigint", "varint", "double", "decimal", "text"):
+            return FALSY[kind]
+        if kind == "text":
+            return rng.choice([" ", "0", "False", "None", "null"])
+        if kind == "double":
+            return rng.choice([-0.0, 1.0, -1.0])
+        if kind == "decimal":
+            return decimal.Decimal(rng.choice(["0.0", "0E-7", "-0", "1", "-1"]))
+        return rng.choice([1, -1, {"int": 2 ** 31 - 1, "bigint": 2 ** 63 - 1, "varint": 2 ** 64}[kind], {"int": -2 ** 31, "bigint": -2 ** 63, "varint": -2 ** 64}[kind]])
     if kind == "int":
         return rng.randint(-2 ** 31, 2 ** 31 - 1)
     if kind == "bigint":
@@ -1007,7 +1025,14 @@ class Driver(object):
         rng = self.rng
         dele = Exp("delete", sp.table)
         kw = {}
-        for c in sp.pk + sp.ck:
+        # the WHERE must restrict exactly the instance's non-None primary-key columns; a None clustering suffix is the documented
+        # way to ask for a range delete (control)
+        n_set = len(sp.ck) if rng.random() < 0.85 else rng.randint(0, len(sp.ck))
+        for i, c in enumerate(sp.pk + sp.ck):
+            if c.role == "ck" and i - len(sp.pk) >= n_set:
+                if rng.random() < 0.5:
+                    kw[c.attr] = None
+                continue
             kw[c.attr] = gen_value(rng, c)
             dele.where.append((("col", c.field), "=", c.col.to_database(kw[c.attr])))
         inst = sp.model(**kw)
